@@ -1,4 +1,5 @@
 import os
+import codecs
 import sys
 import time
 import pty
@@ -819,6 +820,15 @@ class spawn(SpawnBase):
         '''This is used by the interact() method.
         '''
 
+        # interact() copies bytes; the log files get the string type of the
+        # API, so in unicode mode decode what is logged (incrementally: a
+        # character may be split across reads).
+        if self.encoding is not None:
+            log_read = codecs.getincrementaldecoder(self.encoding)('replace').decode
+            log_send = codecs.getincrementaldecoder(self.encoding)('replace').decode
+        else:
+            log_read = log_send = lambda b: b
+
         while self.isalive():
             if self.use_poll:
                 r = poll_ignore_interrupts([self.child_fd, self.STDIN_FILENO])
@@ -839,7 +849,7 @@ class spawn(SpawnBase):
                     break
                 if output_filter:
                     data = output_filter(data)
-                self._log(data, 'read')
+                self._log(log_read(data), 'read')
                 os.write(self.STDOUT_FILENO, data)
             if self.STDIN_FILENO in r:
                 data = self.__interact_read(self.STDIN_FILENO)
@@ -853,10 +863,10 @@ class spawn(SpawnBase):
                 if i != -1:
                     data = data[:i]
                     if data:
-                        self._log(data, 'send')
+                        self._log(log_send(data), 'send')
                     self.__interact_writen(self.child_fd, data)
                     break
-                self._log(data, 'send')
+                self._log(log_send(data), 'send')
                 self.__interact_writen(self.child_fd, data)
 
 
